@@ -12,9 +12,12 @@ from props import consumer_lib as L
 
 MODEL = "consumer"
 MODULE = "Model.Consumer"
-THEOREMS = ["C14_growth_rule", "C14_growth_fails_iff_at_max", "C14_growth_step", "C14_growth_fails_step",
-            "C14_reset_policy", "C14_retry_fires", "C14_failure_step", "C14_offset_reply_resets",
-            "C14_backoff_index", "C14_backoff_step", "C14_attempt_limit", "C14_unlimited_reachable", "C14_limit_in_force"]
+# every theorem of coq/Props/C14.v (all are about Model/Consumer.v or functions its proofs tie to it)
+THEOREMS = ["C14_growth_rule", "C14_growth_fails_iff_at_max", "C14_growth_strict", "C14_growth_reaches_max", "C14_growth_step",
+            "C14_growth_fails_step", "C14_reset_policy", "C14_limit_has_priority_over_policy", "C14_retry_fires",
+            "C14_failure_step", "C14_offset_reply_resets", "C14_unlimited", "C14_limited", "C14_backoff_index", "C14_backoff_step",
+            "C14_attempt_limit", "C14_unlimited_reachable", "C14_limit_in_force", "C14_fuel_enough", "C14_backoff_index_all",
+            "C14_attempt_limit_all", "C14_delay_closed_form"]
 
 
 # ------------------------------------------------------------------ reference functions (restating the theorems)
@@ -449,8 +452,9 @@ def run(ck):
         "the client is a scripted stand-in (send_* return Deferreds the harness fires); KafkaClient itself is covered by C07/C08/C11",
         "Twisted Deferred / DelayedCall / LoopingCall semantics as summarised at the top of Model/Consumer.v (exercised, not verified)",
         "theorems about single steps hold in every model state; the run-level theorems (C14_backoff_index, C14_attempt_limit, reachable-state "
-        "invariant) assume the interpreter fuel is not exhausted (all_fuel_ok: no OFuel output), which the correspondence confirms for every "
-        "generated case (the implementation never emits it and the traces are equal)",
+        "invariant) carry the hypothesis all_fuel_ok (no OFuel output), which C14_fuel_enough discharges for every configuration the constructor "
+        "accepts (auto_commit_every_n >= 0): C14_backoff_index_all / C14_attempt_limit_all state them as exists fuel0, forall fuel >= fuel0; the "
+        "harness itself gives the model fuel 60 + #events + 2 x #messages, a case needing more would surface as a trace difference",
         "C14_unlimited_reachable: with limit 0 the count ends the consumer only while shutdown() has suspended the unlimited retries "
         "(consumer.py:408-410); that the flag implies a shutdown in progress is checked by the monitor, not Qed",
     ]
